@@ -513,6 +513,16 @@ theorem C19_clone_onto_heap (h : Heap) (hw : h.WF) (t : Nat) (old : HVal) (vOld 
       ∧ (∀ a, h.next ≤ a → a < h'.next → a ∈ F' ∨ h'.cell a = none) :=
   cloneOntoH_spec h hw t old vOld F x ht hr hF htlt htF hs Fs hsrc hFs
 
+/-- **(Re)initialisers at heap level** (`cif_value_init`, `init_char`, `copy_char`, `parse_numb` on an existing object): the
+    object stays where it is, the blocks it owned are released exactly once, the new content is built on fresh blocks,
+    nothing else is touched -/
+theorem C19_reinit_heap (h : Heap) (hw : h.WF) (t : Nat) (old : HVal) (vOld : V) (F : List Nat) (x : V)
+    (ht : h.cell t = some (.val old)) (hr : Rep h old vOld F) (hF : ∀ a, a ∈ F → a < h.next) (htlt : t < h.next) (htF : t ∉ F) :
+    ∃ h' new F', reinitH (need vOld) h t x = some h' ∧ h'.cell t = some (.val new) ∧ Rep h' new x F' ∧ h'.WF
+      ∧ (∀ a, a ∈ F' ↔ (h.next ≤ a ∧ a < h'.next))
+      ∧ (∀ a, a < h.next → a ≠ t → h'.cell a = if a ∈ F then none else h.cell a) :=
+  reinitH_spec h hw t old vOld F x ht hr hF htlt htF
+
 /-- F10 (repaired by 50deb6e): on the pinned tree recording a new spelling released the old original key even when
     it *was* the hash key — after `cif_packet_create({"_a"})` and `cif_packet_set_item("_A", …)` the next lookup reads a
     freed block (`none`); the repaired code reads the key. -/
